@@ -129,6 +129,16 @@ def _sample_discrete__python(pmf, rand):
         total += prob
         if rand < total:
             return i
+    # Rounding can leave the cumulative sum slightly below `rand` (< 1).
+    return _last_positive(pmf)
+
+
+def _last_positive(pmf):
+    """Index of the last event with positive probability (the last event if none)."""
+    for i in range(len(pmf) - 1, -1, -1):
+        if pmf[i] > 0:
+            return i
+    return len(pmf) - 1
 
 
 def _samples_discrete__python(pmf, rands, out=None):
@@ -167,6 +177,9 @@ def _samples_discrete__python(pmf, rands, out=None):
             if rand < total:
                 out[i] = j
                 break
+        else:
+            # Rounding can leave the cumulative sum slightly below `rand` (< 1).
+            out[i] = _last_positive(pmf)
 
     return out
 
